@@ -30,7 +30,8 @@ func init() {
 		Level: "exploration",
 		Rule: "case = one generated op sequence over the store realm (pointers into one array, slices sharing a backing array incl. append within/over capacity and re-slicing, closures over heap items, maps of structs, " +
 			"interface-held declared types, linked structs; attach/detach/share/delete) executed in three modes (per-tx with restarts / single MsgRun / pure in-memory main package); " +
-			"non-trivial = the sequence contains >= 3 distinct op kinds and >= 1 aliasing op (Alias, BumpAlias, Window, Grow, Reslice, Share, AddFunc, CallFuncs, GrowSq); distinct by the op list",
+			"non-trivial = the sequence contains >= 3 distinct op kinds and >= 1 aliasing op (Alias, BumpAlias, Window, Grow, Reslice, Share, AddFunc, CallFuncs, GrowSq); distinct by the op list. " +
+			"Value-copy phase: case = one round Init / copy operation (22 kinds) / mutations of 1-3 sides / Read on one of 7 array/struct value shapes, same three modes; always non-trivial",
 		Run: run,
 	})
 }
@@ -181,6 +182,8 @@ func run(c *vf.Ctx) {
 	c.RequireCounter("sequences_agreeing:per-tx-with-restarts", int64(n*9/10))
 	c.RequireCounter("sequences_agreeing:single-msgrun", int64(n*9/10))
 	c.RequireCounter("restarts", 4)
+	runValueCopies(c)
+	c.Assume("value-copy phase: 22 copy operations x 7 value shapes (plain array/struct, and arrays/structs nested in arrays/structs, which persist as separate lazily-loaded objects); every step of a round is its own transaction in the per-tx mode, so the copy always reads re-loaded state")
 }
 
 func runAB(c *vf.Ctx, ops []hist.MsgSpec, rng *rand.Rand) (a, b []string, err error) {
